@@ -15,11 +15,8 @@ Events (Python side) are tuples; `encode_event` gives the model's encoding:
   ('C',)                                      get_error_count
 src = (isa_id, gs_id, st_id, cur_line, st_count); clock = (ymd6, hm, ymd8, hms, rand)
 
-Set iteration order: `list(set(...))` in error_997.visit_seg, error_999.visit_seg and
-error_999.__get_isa_errors depends on string hashing.  While a visitor runs, the name `set` in
-those two modules is bound to a subclass of set that iterates in sorted order (the model iterates
-in sorted order at the same places); every other use of set in the two modules is followed by
-.sort() or is a membership test, so nothing else is affected."""
+Set iteration order: since fix 45b72b1 the visitors iterate the unique codes in sorted order
+(visit_seg) or in first-seen order (error_999.__get_isa_errors); the model does the same, no shim."""
 import copy
 import logging
 import random
@@ -332,14 +329,10 @@ class Patched(object):
         rand = self.rand
         time.strftime = lambda fmt, *a: table[fmt]
         random.randint = lambda a, b: rand
-        for m in self.mods:
-            m.set = sorted_iter_set
         return self
 
     def __exit__(self, *a):
         time.strftime, random.randint = self.old
-        for m in self.mods:
-            del m.set
 
 
 def render(which, errh):
